@@ -348,7 +348,7 @@ def lineage_statements(r, n):
     for i in range(n):
         d = r.choice(["MYSQL", "HIVE"])
         a, b, c = r.choice(TABLES), r.choice(TABLES), r.choice(TABLES)
-        k = r.below(26)
+        k = r.below(30)
         al, al2 = r.choice(["x", "t1", "orders", "t2", "q"]), r.choice(["u", "act_u", "t2"])      # derived-table aliases, sometimes a catalogue table's name
         if al2 == al: al2 = "u9"
         if k == 0: s = "SELECT a, b FROM %s" % a
@@ -380,6 +380,12 @@ def lineage_statements(r, n):
         elif k == 22: n_ = r.choice(["t1", "t2"]); s = "SELECT %s.a FROM (SELECT b AS a FROM %s) %s" % (n_, n_, n_)
         elif k == 23: n_ = r.choice(["t1", "t2"]); s = "SELECT p.a, %s.k FROM (SELECT a FROM %s) p JOIN (SELECT y.b AS k FROM %s y) %s ON 1 = 1" % (n_, n_, b, n_)
         elif k == 24: n_ = r.choice(["t1", "t2"]); s = "INSERT INTO %s (a) WITH %s AS (SELECT c AS a FROM %s) SELECT a FROM %s" % (a, n_, n_, n_) if d == "HIVE" else "WITH %s AS (SELECT c AS a FROM %s) SELECT %s.a FROM %s" % (n_, n_, n_, n_)
+        # a WITH clause in front of a COMPOUND query, alone and under INSERT (the analyzer moves the INSERT's WITH onto its query with set_with_clauses: for a compound
+        # query the clause must stay on the compound statement, where the WITH tables are registered — seeded C17-11)
+        elif k == 25: s = "WITH w AS (SELECT a, b FROM %s) INSERT INTO %s (a, b) SELECT a, b FROM w UNION ALL SELECT a, b FROM %s" % (a, b, c)
+        elif k == 26: s = "WITH w AS (SELECT a FROM %s) SELECT a FROM w UNION SELECT a FROM %s EXCEPT SELECT a FROM w" % (a, b)
+        elif k == 27: s = "WITH w AS (SELECT a FROM %s), v AS (SELECT a FROM w) INSERT OVERWRITE TABLE %s SELECT a, a, a FROM %s UNION ALL SELECT a, a, a FROM v" % (a, b, c); d = "HIVE"
+        elif k == 28: s = "WITH t1 AS (SELECT c AS a FROM %s) INSERT INTO %s (a) SELECT a FROM %s UNION ALL SELECT a FROM t1" % (a, b, c)
         else:
             g = sqlgen.Gen(r, d, wild=False)
             s = g.query()
